@@ -111,7 +111,10 @@ C17_Checks(r) ==
        <<"C17.strport", TRUE, C17_StrPort(O)>>, <<"C17.hostportsub", TRUE, C17_HostPortSub(O)>>}
    ELSE {})
   \cup (IF r.act = "with_port" /\ Has_(r, "self") THEN {<<"C17.with_port", TRUE, C17_WithPort(r.args, r.self, r.out)>>} ELSE {})
-  \cup (IF r.act = "build" /\ "encoded" \notin DOMAIN r.args.kw THEN {<<"C17.build_port", "port" \in DOMAIN r.args.kw, C17_BuildPort(r.args.kw, r.out)>>} ELSE {})
+  \* (both routes: with encoded=True the scheme is stored as given, and the default port is that of the scheme AS STORED)
+  \* (with encoded=True the host is taken verbatim too: an IP literal would have to come bracketed, which is outside this clause)
+  \cup (IF r.act = "build" /\ ("encoded" \notin DOMAIN r.args.kw \/ ("host" \in DOMAIN r.args.kw /\ ~Has(r.args.kw.host, COLON)))
+        THEN {<<"C17.build_port", "port" \in DOMAIN r.args.kw, C17_BuildPort(r.args.kw, r.out)>>} ELSE {})
 
 \* ---------------------------------------------------------------- C04
 C04_Checks(r) ==
